@@ -383,3 +383,13 @@ def run(ctx):
             if k in ('w', 'rw') and any(a.endswith('ClientInfo') for a, _ in ch):
                 others.append(fid)
     rep.check(r4, not others, 'app-layer:no-other-rewrite', 'other application-layer writers of ClientInfo: %s' % sorted(set(others)))
+
+    # R5: a frame whose processing aborts leaves recv events without their terminal event - balance presupposes
+    # that nothing between reply()'s entry and its return can panic, which is what the C01 inventory decides
+    r5 = rep.rule('C20-R5', 'no abort between a recv event and its terminal event: every abort site reachable from reply() is discharged or reviewed (the C01 inventory, evaluated here on the same facts)', floor=1)
+    from vlib.runner import borrow, load_known
+    known1 = {k['key'] for k in load_known() if k.get('property') == 'C01' and k.get('status') == 'known'}
+    sub = borrow(ctx, 'C01', lambda r_, k_: r_ in ('C01-R1', 'C01-R2', 'C01-R3', 'C01-R4'))
+    bad = [(r_, i_) for r_, i_ in sub if not i_['ok'] and '%s:%s' % (r_, i_['key']) not in known1]
+    rep.check(r5, bool(sub) and not bad, 'no-abort-mid-frame', '%d abort-site obligations evaluated, %d not established%s' % (len(sub), len(bad), (': ' + '; '.join('%s at %s' % (i_['key'][:80], i_['loc']) for _, i_ in bad[:3])) if bad else ''))
+
